@@ -23,6 +23,7 @@ package ip
 //@   loop 1 unroll 16
 
 //@ func GetIPAtIndex
+//@   budget 300
 //@   requires subnet4(ipNet) || subnet16(ipNet)
 //@   requires index == -3
 //@   preserves all
